@@ -40,6 +40,7 @@ var propTable = map[string]propDesc{
 			"R27: stored-document index entries are u64 big endian at storedIndexOffset + 8*docNum on both sides",
 			"R27e: the stored block of a document is always snappy-encoded by the writers and always decoded by the reader",
 			"R10e: a stored-field accumulator recycled inside its container has every slice field truncated (no such recycling on the pinned tree; kept alive by the self-test)",
+			"R38: a grow-only scratch slice (the array-position buffer of the visit context) reaches the visitor only as a cut of the length just decoded",
 		},
 		NotDecided: []string{"byte-for-byte round trip of values, types, array positions", "DocNumbers' max-key short cut"},
 	},
@@ -60,6 +61,7 @@ var propTable = map[string]propDesc{
 			"R15a: Persist and WriteTo share the single routine that writes SegmentBase.mem",
 			"R14: footer layout (order, widths, roles) in persistFooter and loadConfig equals the frozen v16 table; CRC is folded over every forwarded byte and written last; FooterSize and Version",
 			"R15c: loader siblings agree",
+			"R13 probe clause: a getChunkSize call used for its error only (a validity probe in the open path) does not fail on ErrChunkSizeZero, which the adaptive modes answer for an empty segment",
 		},
 		NotDecided: []string{"equality of answers between in-memory and reopened segment"},
 	},
